@@ -299,6 +299,7 @@ func allowedFlow(p *Prog, s2n *ssa.Function) *sliceFlow {
 	fl := &sliceFlow{p: p, vals: map[ssa.Value]bool{}, fns: map[*ssa.Function]bool{}, writes: map[*ssa.Function]bool{}, readProblems: map[*ssa.Function][]string{}}
 	flowCache[p] = fl
 	var work []ssa.Value
+	comparators := map[*ssa.Function]bool{}
 	add := func(v ssa.Value) {
 		if v != nil && !fl.vals[v] {
 			fl.vals[v] = true
@@ -466,6 +467,14 @@ func allowedFlow(p *Prog, s2n *ssa.Function) *sliceFlow {
 					// a stateless search over the whole slice
 				case callee.String() == "sort.Slice" || callee.String() == "sort.SliceStable":
 					fl.writes[t.Parent()] = true
+					// its less function — a closure, or a (bound) method — reads by position on behalf of the sort
+					if len(t.Call.Args) == 2 {
+						if mc, ok := t.Call.Args[1].(*ssa.MakeClosure); ok {
+							cf := mc.Fn.(*ssa.Function)
+							comparators[cf] = true
+							comparators[unwrapThunk(p, cf)] = true
+						}
+					}
 				default:
 					if si := classifyStd(callee); si.Class == stdMutatesArg {
 						fl.writes[t.Parent()] = true // onlyPermutes names it
@@ -475,6 +484,11 @@ func allowedFlow(p *Prog, s2n *ssa.Function) *sliceFlow {
 				}
 			case *ssa.MakeInterface:
 				// sort.Slice(x any, …): follow to the call
+				add(t)
+			case *ssa.ChangeType:
+				// the same slice under a named slice type (type byText []*node)
+				add(t)
+			case *ssa.Convert:
 				add(t)
 			default:
 				fl.escapes = append(fl.escapes, fmt.Sprintf("%s: the allowed nodes are used by %T", p.pos(ref.Pos()), ref))
@@ -487,7 +501,7 @@ func allowedFlow(p *Prog, s2n *ssa.Function) *sliceFlow {
 	}
 	// the comparator closure of a sorting function reads by position on behalf of the sort
 	for f := range fl.fns {
-		if f.Parent() != nil && fl.writes[f.Parent()] {
+		if (f.Parent() != nil && fl.writes[f.Parent()]) || comparators[f] {
 			delete(fl.readProblems, f)
 			fl.writes[f] = true
 		}
